@@ -80,6 +80,9 @@ CHECKS = {
  'C44': dict(cat='proof', tech='deductive: postconditions over a ghost log on the real ConnectionHeartbeat.run (one round, loops unrolled over <=2/3 connections), HeartbeatFuture.__init__/wait/_options_callback, Connection.is_idle/reset_idle with symbolic in_flight counts and clock; frame scan of msg_received',
              text='One heartbeat round is verified for every combination of 9 connection states over up to 2 owners with arbitrary in_flight/max ids and clock readings; Event/clock and send_msg/defunct are assumed contracts. Interval scheduling between rounds is out of scope.',
              ref='DESIGN.md §4 C44'),
+ 'C45': dict(cat='proof', tech='deductive: ghost OPENED/CLOSED postconditions with shutdown() injected at the blocking calls of every opener, on the real Cluster.shutdown/connect/on_*, Session.shutdown/submit/add_or_renew_pool, ControlConnection.shutdown/_reconnect/_try_connect/_set_new_connection, HostConnection.shutdown/_replace, HostConnectionPool.shutdown/_add_conn_if_under_max, _Scheduler, ResponseFuture.send_request',
+             text='Per-layer contracts: each shutdown closes what the layer owns exactly once and is idempotent; each opener closes its new connection/pool when shutdown interleaved; nothing is scheduled, submitted or connected after the flag; requests on a shut-down session complete with NoHostAvailable. Global quiescence is the conjunction (meta-argument); interference points are the blocking calls only.',
+             ref='DESIGN.md §4 C45'),
 }
 
 NA_REASON = {}
